@@ -24,7 +24,8 @@ def run(ctx):
     fitems = []
     for i, f in enumerate(files):
         ext, typ = exts[i % len(exts)]
-        load = i % 5 == 0 and len(f["records"]) > 0 and typ == "aa"
+        # (a sequence line with a '>' in it is read as text by the reader but is not a code string: no Sequence from it)
+        load = i % 5 == 0 and len(f["records"]) > 0 and typ == "aa" and not any(">" in x for r in f["records"] for x in r["seq"])
         fitems.append({"id": str(i), "lines": f["lines"], "ext": ext, "type": typ, "load": load, "want": f["records"]})
     # files with valid sequences per type for the extension -> type mapping
     for j, (ext, typ) in enumerate(exts * 3):
